@@ -259,13 +259,19 @@ def fixTag (M : Module) (me : Bool) (g : WTag) : WTag :=
   | m => ⟨g.tag, if me then .exp else m⟩
 
 mutual
-/-- `asn1f_fix_constr_tag(arg, 0)` + `asn1f_fix_constr_autotag` on every constructed type inside `t`
-    (the own tag of `t` is the business of the enclosing type) -/
+/-- `asn1f_fix_constr_tag(arg, 0)` + `asn1f_fix_constr_autotag` on every constructed type inside `t`, the element
+    type of SEQUENCE OF / SET OF included (the own tag of `t` is the business of the enclosing type) -/
 def fixTy (M : Module) : CTy → CTy
   | .constr tag k ext comps =>
     let auto := M.tagDefault == "AUTOMATIC" && comps.all (fun c => c.ty.tag.isNone)
     .constr tag k ext (fixComps M auto 0 comps)
-  | .listOf tag q sz e => .listOf tag q sz (fixTy M e)
+  | .listOf tag q sz e =>
+    -- the element type: a written tag follows the module's tagging default (`_asn1f_fix_type_tag`), exactly as
+    -- the tag of a component without automatic tagging
+    let e1 := fixTy M e
+    .listOf tag q sz (match e.tag with
+      | some g => e1.withTag (some (fixTag M (mustExplicit M M.fuel e) g))
+      | none => e1)
   | t => t
 def fixComps (M : Module) (auto : Bool) (i : Nat) : List Comp → List Comp
   | [] => []
@@ -855,15 +861,22 @@ def hasDefaultCmp (M : Module) (c : Comp) : Bool :=
      | some (.prim _ .boolean) => true | some (.integer _ _) => true | some (.enumerated _ _ _) => true | _ => false)
   | _ => false
 
-/-- `tag_mode` of a member: only for non-constructed types and CHOICE carrying a tag -/
-def memberMode (t : CTy) : Int :=
+/-- `tag_mode` of a member: only for non-constructed types and CHOICE carrying a tag.  An EXPLICIT tag on a member that
+    gets a descriptor of its own although it is not constructed (ENUMERATED, INTEGER kept in an unsigned long: see
+    `complexContents`) is among the `tags` of that descriptor, so the member says 0 (it said +1, and the encoders wrote the
+    tag twice); an IMPLICIT one stays −1, which replaces the first of the descriptor's tags by itself -/
+def memberMode (M : Module) (o : Opts) (t : CTy) : Int :=
   let plain := match t with
     | .constr _ .choice _ _ => true
     | .constr _ _ _ _ => false
     | .listOf _ _ _ _ => false
     | _ => true
+  let own := match t with
+    | .enumerated _ _ _ => true
+    | .integer tg c => fitsLongTy M o (.integer tg c) == FitsLong.unsigned
+    | _ => false
   match t.tag with
-  | some g => if plain then (if g.mode == .imp then -1 else 1) else 0
+  | some g => if plain then (if g.mode == .imp then -1 else if own then 0 else 1) else 0
   | Option.none => 0
 
 abbrev Names := List (String × List String)
@@ -921,7 +934,7 @@ def compMembers (M : Module) (o : Opts) (nm : Names) : Nat → String → CK →
   | _, _, _, _, _, _, [], seen => ([], seen)
   | fuel + 1, path, k, ext, i, runs, c :: rest, seen =>
     let (d, seen) := compMemberTy M o nm fuel (path ++ "." ++ c.name) c.name c.ty seen
-    let m := DMember.mk c.name (memberFlags M o k ext i c) (runs.headD 0) (outmost M M.fuel c.ty) (memberMode c.ty)
+    let m := DMember.mk c.name (memberFlags M o k ext i c) (runs.headD 0) (outmost M M.fuel c.ty) (memberMode M o c.ty)
               (hasDefaultCmp M c) (memberEnc M o c.ty) d
     let (ms, seen) := compMembers M o nm fuel path k ext (i + 1) (runs.drop 1) rest seen
     (m :: ms, seen)
@@ -930,7 +943,7 @@ def compElem (M : Module) (o : Opts) (nm : Names) : Nat → String → CTy → L
   | 0, _, _, seen => (.mk "" 1 0 Option.none 0 false Enc.none (.ref ""), seen)
   | fuel + 1, path, e, seen =>
     let (d, seen) := compMemberTy M o nm fuel (path ++ ".@") (anonName e) e seen
-    (.mk "" 1 0 (outmost M M.fuel e) (memberMode e) false (memberEnc M o e) d, seen)
+    (.mk "" 1 0 (outmost M M.fuel e) (memberMode M o e) false (memberEnc M o e) d, seen)
 /-- the terminal type together with the identity path of its definition -/
 def terminalWithPath (M : Module) : Nat → String → CTy → Option (String × CTy)
   | fuel, path, t =>
